@@ -37,6 +37,20 @@ CHECKS = {
             'convergence is judged only where the nearest-neighbour terms connect the invariant subspace and a random field breaks '
             'hidden symmetries (elsewhere a stuck local optimisation is a limit of the algorithm); orthogonal_to is judged only for '
             'negative target energies (documented limitation)', 'DESIGN.md §C13'),
+    'C14': ('exploration', 'dense exp(-iHt) reference at successively halved step sizes (observed order), exact ledgers of evolved_time '
+            'and of the truncation error (engine attribute vs sum of evolve() returns vs probe on every truncate() call), '
+            'conservation monitors, exhaustive check of the Suzuki-Trotter schedules',
+            'Random (optionally time-dependent) Hermitian chains of 4-7 sites x TEBD (orders 1, 2, 4, 4_opt), QR-based TEBD, one- and '
+            'two-site TDVP (Lanczos/Arnoldi, Krylov basis extension), ExpMPOEvolution (I/II, order 1/2, SVD/zip_up/variational) and '
+            'the TimeDependent* variants x real and imaginary steps x splits of the total time into run() calls x preserve_norm x '
+            'start_time / start_trunc_err: the state equals the dense reference with an error that shrinks at the documented order, '
+            'stays in its charge sector, norm and energy are conserved (exactly for one-site TDVP even when truncating), '
+            'evolved_time == start + steps*dt, trunc_err == start + sum of the errors of the truncations performed, and a split of '
+            'the time over several run() calls gives the same state; suzuki_trotter_decomposition composes to exactly N_steps on '
+            'even and odd bonds for all N_steps <= 40.',
+            'exactness is judged only where no truncation is requested or reported and (for TDVP) where the manifold is complete '
+            '(saturated bonds, or two-site TDVP with nearest-neighbour H); under imaginary steps only the direction of the state is '
+            'judged; time-dependent engines are compared with the documented first-order product of exponentials', 'DESIGN.md §C14'),
     'C12': ('exploration', 'dense operator identities evaluated on every configuration of the (finite, exhaustively enumerated) '
             'site-option grid; kron/JW reference for grouped sites; explicit Jordan-Wigner matrices for many-body CAR',
             'Every site class x parameters x conserve option x sort_charge: operators mapped through perm equal the textbook '
